@@ -44,10 +44,53 @@ def cond_fact(t, truth):
     return f if truth else ("not", f)
 
 
+def cond_facts(t, truth):
+    """facts implied by boolean term t having value `truth`: a gated choice `if c { a } else { false }` that is true gives c
+    and a (what `&&`, `is_some_and`, `map_or(false, ..)` leave after INLINE); `if c { true } else { b }` that is false gives
+    not c and not b"""
+    if isinstance(t, tuple) and t and t[0] == "ite":
+        c, a, b_ = t[1], t[2], t[3]
+        cf = [c] if c and c[0] in ("cmp", "istrue", "not") else [cond_fact(c, True)]
+        if truth and b_ in (("c", 0), ("c", False)):
+            out = list(cf) + cond_facts(a, True)
+            for f in cf:
+                if f[0] == "cmp" and f[1] == "Eq" and f[3] == ("c", 1) and f[2][0] == "discr" and f[2][1][0] == "checked" and f[2][1][1] == "Sub":
+                    out.append(("cmp", "Ge", f[2][1][2][0], f[2][1][2][1]))
+            return out + [cond_fact(t, True)]
+        if not truth and a in (("c", 1), ("c", True)):
+            return [negate(f) for f in cf] + cond_facts(b_, False) + [cond_fact(t, False)]
+        if truth and a in (("c", 1), ("c", True)) and len(cf) == 1:
+            # `c || b` joined into one boolean: a disjunctive fact, as the two-edge form of `||` gives at its merge block
+            return [("or", (tuple(cf), tuple(x for x in cond_facts(b_, True) if x[0] != "istrue" or len(cond_facts(b_, True)) == 1))), cond_fact(t, True)]
+    return [cond_fact(t, truth)]
+
+
 class Guards:
     def __init__(self, tb):
         self.tb = tb
         self.body = tb.body
+        self._edge_memo = {}
+        self._facts_memo = {}
+
+    def edge_condition(self, d, s, label):
+        """the one fact that is exactly the condition of the switch edge d -> s (edge_facts adds what follows from it)"""
+        b = self.body
+        t = b.term(d)
+        if t["k"] != "switch":
+            return None
+        dt = self.tb.operand(t["d"], (d, len(b.stmts(d))))
+        dty = t.get("dty")
+        if label[0] == "sw":
+            return cond_fact(dt, bool(label[1])) if dty == "bool" else ("cmp", "Eq", dt, T.C(label[1]))
+        vals = tuple(label[1])
+        if dty == "bool":
+            return cond_fact(dt, True) if vals == (0,) else cond_fact(dt, False) if vals == (1,) else None
+        return ("cmp", "Ne", dt, T.C(vals[0])) if len(vals) == 1 else None
+
+    def add_fact_hook(self, hook):
+        """hook(discriminant term, is_some) -> facts: a contract a rule has itself established for an Option-valued call of
+        this function (e.g. that a find_map closure answers the index of the item it accepts)"""
+        self._hooks = getattr(self, "_hooks", []) + [hook]
         self._edge_memo = {}
         self._facts_memo = {}
 
@@ -64,32 +107,61 @@ class Guards:
             if label[0] == "sw":
                 v = label[1]
                 if dty == "bool":
-                    out.append(cond_fact(dt, bool(v)))
+                    out += cond_facts(dt, bool(v))
                 else:
                     out.append(("cmp", "Eq", dt, T.C(v)))
                     if dt[0] == "discr" and dt[1][0] == "checked" and dt[1][1] == "Sub" and v in (0, 1):
                         # x.checked_sub(y) is Some  <=>  x >= y
                         out.append(("cmp", "Ge" if v == 1 else "Lt", dt[1][2][0], dt[1][2][1]))
+                    out += self._discr_facts(dt, v == 1 if v in (0, 1) else None)
             else:
                 vals = label[1]
                 if dty == "bool":
                     # otherwise of a bool switch on [0] means true
                     if tuple(vals) == (0,):
-                        out.append(cond_fact(dt, True))
+                        out += cond_facts(dt, True)
                     elif tuple(vals) == (1,):
-                        out.append(cond_fact(dt, False))
+                        out += cond_facts(dt, False)
                 else:
                     for v in vals:
                         out.append(("cmp", "Ne", dt, T.C(v)))
                     if dt[0] == "discr" and dt[1][0] == "checked" and dt[1][1] == "Sub" and tuple(vals) in ((0,), (1,)):
                         out.append(("cmp", "Ge" if tuple(vals) == (0,) else "Lt", dt[1][2][0], dt[1][2][1]))
+                    if tuple(vals) in ((0,), (1,)):
+                        out += self._discr_facts(dt, tuple(vals) == (0,))
         elif k == "assert":
             ct = self.tb.operand(t["cond"], at)
-            out.append(cond_fact(ct, bool(t["expected"])))
+            out += cond_facts(ct, bool(t["expected"]))
         elif k == "call":
             out += self.tb.post_call_facts(d)
             out += std_post_call_facts(self.tb, t, d)
         return [f for f in out if f is not None]
+
+    def _discr_facts(self, dt, is_some):
+        """std contracts attached to the Some / None answer of an Option-valued call"""
+        if is_some is None or dt[0] != "discr":
+            return []
+        x = dt[1]
+        out = []
+        for hook in getattr(self, "_hooks", []):
+            out += hook(dt, is_some) or []
+        if x[0] == "checked" and x[1] == "Add" and x[3] in U_MAX:
+            # a.checked_add(b) is Some  <=>  a + b <= MAX
+            out.append(("cmp", "Le" if is_some else "Gt", ("bin", "Add", x[2][0], x[2][1], None), T.C(U_MAX[x[3]])))
+        if is_some and x[0] == "call" and len(x[2]) == 2:
+            key = str(x[1])
+            it = x[2][0][1] if x[2][0][0] == "ref" else x[2][0]
+            enum = False
+            if ("Iterator>::find_map" in key or cn(x[1]).endswith("Iterator::find_map")) and it[0] == "call" and len(it[2]) == 1 and \
+                    ("Iterator>::enumerate" in str(it[1]) or cn(it[1]).endswith("Iterator::enumerate")):
+                it = it[2][0]
+                enum = True
+            if enum or "Iterator>::position" in key or cn(x[1]).endswith("Iterator::position"):
+                if it[0] == "call" and cn(it[1]) == "core::slice::windows" and len(it[2]) == 2 and not enum:
+                    # windows(k) yields len - k + 1 items (len >= k), position() answers an index of one of them: i + k <= len
+                    idx = self.tb.project(x, [("dc", 1, "Some"), ("f", 0, "0", "usize")])
+                    out.append(("cmp", "Le", ("bin", "Add", idx, it[2][1], "usize"), ("len", it[2][0])))
+        return out
 
     def dominating_edges(self, B):
         """edges (d, s, label) such that every path entry->B takes the edge"""
@@ -391,6 +463,32 @@ def lin(t):
             return Lin(0, {("divv", strip(t[2]), strip(t[3])): 1})
     if k == "un" and t[1] == "Not" and t[2][0] == "c":
         return Lin((~t[2][1]) & ((1 << 64) - 1))
+    if k == "len":
+        # length of a sub-slice produced by indexing (the indexing returned, so the range was in bounds) / of an array view
+        x = t[1]
+        for _ in range(4):
+            if isinstance(x, tuple) and x and x[0] in ("ref", "deref") and isinstance(x[1], tuple) and x[1] and x[1][0] in ("deref", "ref", "call", "sub", "unsize"):
+                x = x[1]
+            else:
+                break
+        if x[0] == "unsize" and len(x) > 3 and str(x[3]).startswith(("&[", "&mut [")) and ";" in str(x[3]):
+            try:
+                return Lin(int(str(x[3]).rsplit(";", 1)[1].strip(" ]")))
+            except ValueError:
+                pass
+        if x[0] == "sub":
+            return lin(x[3]).add(lin(x[2]), -1)
+        if x[0] == "call" and len(x[2]) == 2 and str(x[1]).startswith("core::slice::index::<impl core::ops::index::Index<core::ops::range::") and \
+                x[2][1][0] == "aggr" and x[2][1][1][0] == "adt":
+            rk, ops = x[2][1][1][1].rsplit("::", 1)[1], x[2][1][2]
+            if rk == "RangeFrom":
+                return lin(("len", x[2][0])).add(lin(ops[0]), -1)
+            if rk == "RangeTo":
+                return lin(ops[0])
+            if rk == "Range":
+                return lin(ops[1]).add(lin(ops[0]), -1)
+            if rk == "RangeFull":
+                return lin(("len", x[2][0]))
     if k == "call" and len(t[2]) == 1 and cn(t[1]) == "multiboot2_common::increase_to_alignment":
         # the repository's rounding function, when it is not a single expression that the term builder can look into:
         # its meaning (least multiple of 8 >= x) is premise B6 of C14 / T2 of C03, decided there for whatever body it has
@@ -422,11 +520,15 @@ U_MAX = {"u8": 2**8 - 1, "u16": 2**16 - 1, "u32": 2**32 - 1, "u64": 2**64 - 1, "
 def term_type(t):
     k = t[0]
     if k == "fld":
-        return t[4]
+        return t[4] if len(t) > 4 else None
     if k == "arg":
-        return t[2]
+        return t[2] if len(t) > 2 else None
     if k == "zext":
-        return t[3]
+        return t[3] if len(t) > 3 else None
+    if k == "le32":
+        return "u32"
+    if k == "elem":
+        return None
     if k == "bin":
         return t[4] if len(t) > 4 else None
     if k == "len":
@@ -457,6 +559,24 @@ def atom_range(a):
         return None
     if k == "len":
         return (0, 2**63 - 1)
+    if k in ("min", "max") and len(a) == 3:
+        def ub(t_):
+            try:
+                lf = lin(t_)
+            except Exception:
+                return None
+            v = lf.c
+            for x, c in lf.m.items():
+                r = atom_range(x) if x != a else None
+                if r is None or c < 0 or r[1] is None:
+                    return None
+                v += c * r[1]
+            return v
+        ua, ub_ = ub(a[1]), ub(a[2])
+        if k == "min":
+            his = [u for u in (ua, ub_) if u is not None]
+            return (0, min(his) if his else None)
+        return (0, max(ua, ub_) if ua is not None and ub_ is not None else None)
     if k == "saturating" and a[1] == "Sub":
         hi = None
         try:
@@ -473,6 +593,12 @@ def atom_range(a):
         return (0, hi)
     if k in ("sizeofval", "sizeof", "alignof"):
         return (0, 2**63 - 1)
+    if k == "from_bytes" and len(a) > 3 and a[3] in U_MAX:
+        return (0, U_MAX[a[3]])
+    if k == "unwrap" and len(a) == 2 and isinstance(a[1], tuple) and a[1] and a[1][0] == "call" and "TryFrom<u32>" in str(a[1][1]) and "usize" in str(a[1][1]):
+        return (0, U_MAX["u32"])          # usize::try_from(u32).unwrap(): the u32's value
+    if k == "widen":
+        return (0, U_MAX["u32"])
     if k == "align_offset":
         return (0, 2**64 - 1)
     ty = term_type(a)
@@ -620,12 +746,27 @@ def entails(facts, need):
     needs = fact_lins(need)
     if not needs:
         return None
+    # min(a, b) <= a, <= b ; max(a, b) >= a, >= b  for every such atom in sight (no fact index: they hold by definition)
+    mm = set()
+    for e in fes + needs:
+        for a_ in e.m:
+            if isinstance(a_, tuple) and a_ and a_[0] in ("min", "max") and len(a_) == 3:
+                mm.add(a_)
+    for a_ in mm:
+        me = Lin(0, {a_: 1})
+        for side in (a_[1], a_[2]):
+            try:
+                d_ = lin(side).add(me, -1)
+            except Exception:
+                continue
+            fes.append(d_ if a_[0] == "min" else d_.scale(-1))
+            idx.append(-1)
     used = []
     for ne in needs:
         j = entails_lin(fes, ne)
         if j is None:
             return None
-        used += [idx[i] for i in j[1]]
+        used += [idx[i] for i in j[1] if idx[i] >= 0]
     return ("lin", sorted(set(used)))
 
 
